@@ -45,9 +45,10 @@ TRUSTED = ["(R) not verified, compared with the verified reference min_partition
            "singleton_pair_combinations); termination only observed by the watchdog",
            "k_alternative_partition_brut_force is additionally MIRRORED (Model/PartitionAlgo.v, bf_algo) and compared with "
            "its mirror on every brute-force case (None-ness and number of axes; identical partitions counted in the "
-           "distribution): the mirror is proved sound for every size (bf_sound) but its minimality only on small domains "
-           "(bf_complete_min_partial_small), so minimality of the code rests on the comparison with min_partition; the "
-           "iteration order of the Python L-sets is observed in the worker and handed to the mirror as its order parameter"]
+           "distribution): the mirror is proved sound and minimum for every size (bf_sound, bf_complete_min, bf_algo_ok); "
+           "that the code behaves like the mirror is established by this comparison (and, independently, by the comparison "
+           "with min_partition); the iteration order of the Python L-sets is observed in the worker and handed to the "
+           "mirror as its order parameter"]
 ASSUMPTIONS = ["data_type = soc; every order ranks every alternative exactly once; >= 1 alternative, >= 1 order; orders "
                "distinct; k >= 1 (quantifier of C18)",
                "k_alternative_partition_brut_force returns ONE partition (a list of axes) or None - the docstring's "
@@ -58,7 +59,7 @@ COVER_FILES = ["properties/subdomains/ordinal/singlepeaked/k_alternative_partiti
 COVER_TIMEOUT_S = 60
 TIMEOUT_S = 120.0
 CHUNK = 4
-THEOREMS_FOR_OP = {"c18.algo": "bf_sound / bf_complete_min (mirror Model/PartitionAlgo.v)",
+THEOREMS_FOR_OP = {"c18.algo": "bf_algo_ok / bf_sound / bf_complete_min (mirror Model/PartitionAlgo.v)",
                    "c18.approx": "partition_check_correct / check_valid_bound",
                    "c18.bf": "brute_force_ok_correct / min_partition_correct / partition_check_correct"}
 REF_MAX_M = 8      # the reference optimum is run up to this size
